@@ -414,8 +414,9 @@ def assemble_chunks(asm, src, compress, include_dirs=None):
         r.chunks = captured.get('chunks', [])
     except asm.AssemblerError as e:
         r.status = 'asmerr'
-        r.err_line = e.line.number
-        r.err_file = e.line.file
+        # (an AssemblerError without a line names nothing: recorded as line None / file None)
+        r.err_line = getattr(e.line, 'number', None)
+        r.err_file = getattr(e.line, 'file', None)
         r.exc = 'AssemblerError'
     except RecursionError:
         r.status = 'exc'
